@@ -433,7 +433,7 @@ def r2(ctx):
                 miss = sorted(want - got); extra = sorted(got - want)
                 def show(cs): return ','.join(repr(chr(c)) if 32 < c < 127 else '\\x%02x' % c for c in cs[:6]) + ('...' if len(cs) > 6 else '')
                 w = fn.bmap[label].ins[0] if label else G.sw
-                if key in rep.vkeys: rep.obl.setdefault('C01.R2', [0, 0])[0] += 1      # same defect seen under the other case mode: one report
+                pass      # (Reporter.fail counts a repeated key as one more instance and reports it once)
                 rep.fail('C01.R2', key, where(w),
                          '%s returns %s, whose production (reduction %d) adds a different set: %d missing (%s), %d extra (%s)' % (
                              tag, tok, rule, len(miss), show(miss), len(extra), show(extra)),
